@@ -24,7 +24,7 @@ def tla_set(xs):
 
 
 def write_mc_cfg(path, *, spec="Spec", deviations=(), net_kinds=(), net_budget=0, adv_kinds=(), adv_budget=0,
-                 max_ord=2, fpcs=("match",), fpss=("none",), idcs=("certC",), idss=("certS",), deadline=False,
+                 max_ord=2, fpcs=("match",), fpss=("none",), idcs=("certC",), idss=("certS",), kindss=("ec",), deadline=False,
                  app=True, invariants=(), properties=(), emit="NoEmit", extra_inv=(), server_hvr=False, anti_replay=(),
                  tick_slack=None, buffers=()):
     with open(path, "w") as f:
@@ -44,6 +44,7 @@ CONSTANTS
   FpSs = {tla_set(fpss)}
   IdCs = {tla_set(idcs)}
   IdSs = {tla_set(idss)}
+  KindSs = {tla_set(kindss)}
   TickQuiet = {"TRUE" if tick_slack is None else "FALSE"}
   TickSlack = {0 if tick_slack is None else tick_slack}
   UseDeadline = {"TRUE" if deadline else "FALSE"}
@@ -77,6 +78,9 @@ def op_to_harness(o):
 
 
 def sched_id(cfg, ops):
+    # kS (key type of the genuine server's certificate) is part of the identity only where it is not the default
+    if cfg.get("kS", "ec") == "ec":
+        cfg = {k: v for k, v in cfg.items() if k != "kS"}
     k = json.dumps({"cfg": cfg, "ops": ops}, sort_keys=True)
     return hashlib.sha1(k.encode()).hexdigest()[:12]
 
@@ -91,13 +95,13 @@ def scenarios_from_sched(rows, tick_ms=40, deadline_ms=3000, always_empty=True):
         sid = sched_id(cfg, r["ops"])
         if sid not in seen:
             seen[sid] = {"id": sid, "cfg": cfg, "tlc_ops": r["ops"], "ops": [op_to_harness(o) for o in r["ops"]],
-                         "fpC": cfg["fpC"], "fpS": cfg["fpS"], "idC": cfg["idC"], "idS": cfg["idS"],
+                         "fpC": cfg["fpC"], "fpS": cfg["fpS"], "idC": cfg["idC"], "idS": cfg["idS"], "kS": cfg.get("kS", "ec"),
                          "tick_ms": tick_ms, "deadline_ms": deadline_ms}
     if always_empty:
         for cfg in cfgs.values():
             sid = sched_id(cfg, [])
             seen.setdefault(sid, {"id": sid, "cfg": cfg, "tlc_ops": [], "ops": [], "fpC": cfg["fpC"], "fpS": cfg["fpS"],
-                                  "idC": cfg["idC"], "idS": cfg["idS"], "tick_ms": tick_ms, "deadline_ms": deadline_ms})
+                                  "idC": cfg["idC"], "idS": cfg["idS"], "kS": cfg.get("kS", "ec"), "tick_ms": tick_ms, "deadline_ms": deadline_ms})
     return [seen[k] for k in sorted(seen)]
 
 
@@ -159,7 +163,7 @@ def _normalise(outcome):
     out = [{"ev": "reset", "id": outcome["id"],
             "model": {"refS": "S", "refC": "C"}.get(sc.get("peer"), ""),     # endpoint without hooks (the reference)
             "cfg": {"fpC": sc.get("fpC", "match"), "fpS": sc.get("fpS", "none"),
-                    "idC": sc.get("idC", "certC"), "idS": sc.get("idS", "certS")}}]
+                    "idC": sc.get("idC", "certC"), "idS": sc.get("idS", "certS"), "kS": sc.get("kS", "ec")}}]
     # what the proxy saw and did: original plaintext handshake messages and rewrites, per direction
     orig = {}      # (dir, bh) -> (type, ms)
     rewritten = {}  # (dir, bh_out) -> (kind, type, ms_orig)
